@@ -50,7 +50,9 @@ BaseDocs(d) ==
       v \in {"heapprofile", "heap_v2", "heapz_v2", "heap"}, r \in {1, 4, 524288},
       rs \in { <<Rec(c, s, c, s, st)>> : c \in {1, 3}, s \in {10, 4096}, st \in {<<16>>, <<17, 32>>} }
              \cup { <<Rec(0, 0, 2, 64, <<16, 32>>)>>, <<Rec(1, 16, 3, 48, <<32>>)>>, <<Rec(3, 300, 3, 900, <<32>>)>>, <<Rec(2, 64, 5, 64, <<16>>)>>,   \* in-use and alloc pairs agreeing in one number only
-              <<Rec(2, 100, 2, 100, <<16>>), Rec(7, 7000, 7, 7000, <<4096, 17>>)>> } }
+              <<Rec(2, 100, 2, 100, <<16>>), Rec(7, 7000, 7, 7000, <<4096, 17>>)>>,
+              <<Rec(2, 100, 2, 100, <<16>>), Rec(0 - 2, 0 - 2048, 0, 0, <<32>>)>>,     \* a negative in-use pair (the grammar allows it): unsampled like any other
+              <<Rec(1, 16, 3, 48, <<32>>), Rec(0 - 3, 0 - 300, 3, 900, <<16>>)>> } }
   \cup
   \* growth and fragmentation profiles: the heap grammar with period 1, no unsampling, in-use pair only
   { [fmt |-> "heap", variant |-> v, recs |-> rs, rate |-> 0, period |-> 0, hz |-> 0] :
@@ -96,7 +98,7 @@ BaseDocs(d) ==
 \* the trailing memory map: none, /proc/maps form or the brief form; two executable mappings
 \* exe = [8, 4096) and lib = [4096, 8192) (plus a non-executable one the parser must skip)
 Growth(doc) == doc.variant \in {"growthz", "growth", "fragmentationz"}
-MapForms == {"none", "procmaps", "brief"}
+MapForms == {"none", "procmaps", "brief", "split3"}   \* split3: the executable listed as three adjacent pieces (to be joined again)
 Docs(d) == UNION { { [doc |-> b, map |-> m] : m \in (IF b.fmt = "threadz" THEN MapForms \ {"none"} ELSE IF b.fmt \in {"javaheap", "javacontention", "javacpu"} THEN {"none"} ELSE MapForms) } : b \in BaseDocs(d) }
 MapOf(form, a) == IF form = "none" THEN "fake" ELSE IF a >= 8 /\ a < 4096 THEN "exe" ELSE IF a >= 4096 /\ a < 8192 THEN "lib" ELSE "fake"
 PeriodExpected(doc) ==
@@ -124,7 +126,7 @@ ValuesExpected(doc) ==
             LET r == doc.recs[i] IN
             [rule |-> IF doc.variant = "heapprofile" \/ Growth(doc) THEN "raw" ELSE "unsample", rate |-> HeapRate(doc),
              v |-> IF HasAlloc(doc) THEN <<r.c2, r.s2, r.c, r.s>> ELSE <<r.c, r.s>>,
-             bytes |-> IF r.c # 0 THEN r.s \div r.c ELSE IF HasAlloc(doc) /\ r.c2 # 0 THEN r.s2 \div r.c2 ELSE 0]]
+             bytes |-> IF r.c < 0 /\ r.s < 0 THEN (0 - r.s) \div (0 - r.c) ELSE IF r.c # 0 THEN r.s \div r.c ELSE IF HasAlloc(doc) /\ r.c2 # 0 THEN r.s2 \div r.c2 ELSE 0]]
     [] doc.fmt = "contention" ->
          [i \in DOMAIN doc.recs |-> [rule |-> "contention", period |-> doc.period, hz |-> doc.hz, v |-> <<doc.recs[i].c, doc.recs[i].s>>]]
     [] doc.fmt = "threadz" ->
